@@ -140,8 +140,9 @@ def run_property(prop, tier, replay=None, extra_props=()):
             sample = cases if thorough else cases[::3]
             enum_res, mism, nexec = conformance(sample, wd)
             if mism:
-                raise core.MachineryFailure('reference semantics PyBind.tla disagrees with CPython on program %s: %s %s' % (
-                    mism[0][0], mism[0][1], json.dumps(mism[0][2])[:600]))
+                src = [c.get('source', '') for c in sample if c['id'] == mism[0][0]]
+                raise core.MachineryFailure('reference semantics PyBind.tla disagrees with CPython on program %s: %s %s\n%s' % (
+                    mism[0][0], mism[0][1], json.dumps(mism[0][2])[:600], (src or [''])[0]))
             ck.add_tlc(enum_res)
             ck.extra['cpython_executions_matched_two_way'] = nexec
             ck.extra['programs_in_reference_validation'] = len(sample)
